@@ -4,7 +4,7 @@
    moment pts wts k = sum_i w_i x_i^k. *)
 From Coq Require Import Reals List Lia.
 From Coquelicot Require Import Coquelicot.
-From MV Require Import Ops RInst Vec Quadrature SumR QuadratureP SpawnStack SpawnStackP.
+From MV Require Import Ops RInst Vec Quadrature SumR QuadratureP SpawnStack SpawnStackP ClenshawP.
 Open Scope R_scope.
 
 Theorem C18_midpoint : forall (n : nat) (a b : R), (1 <= n)%nat -> a < b ->
@@ -114,8 +114,17 @@ Proof.
 Qed.
 Print Assumptions C18_spawn_stack_is_tensor_product.
 
-(* PARTIAL (not mechanised): the Waldvogel FFT identity behind clenshaw_curtis
-   (validated per n against exact moments by the harness); leggauss itself (oracle). *)
+(* Clenshaw-Curtis exactly as the code builds it (the vectors v and g of Waldvogel's construction, the inverse DFT
+   written out as in Model/Quadrature.idft_re, the assembly cc_wts): the weights sum to b - a for EVERY n >= 3.
+   (Roots-of-unity sums, a telescoping series and a parity split; Proof/ClenshawP.v.) *)
+Theorem C18_clenshaw_curtis_weights_sum : forall (n : nat) (a b : R), (3 <= n)%nat ->
+  vsum ROps (cc_wts ROps (idft_re ROps PI (cc_h ROps n)) a b) = b - a.
+Proof. intros. apply cc_weights_sum. assumption. Qed.
+Print Assumptions C18_clenshaw_curtis_weights_sum.
+
+(* PARTIAL (not mechanised): that the Clenshaw-Curtis rule is exact for polynomials of degree <= n-1
+   (validated per n against exact moments by the harness); numpy's ifft vs the written-out inverse DFT;
+   leggauss itself (oracle). *)
 
 Example C18_witness : (1 <= 3)%nat /\ (0:R) < 1.
 Proof. split; [lia | apply Rlt_0_1]. Qed.
